@@ -267,6 +267,22 @@ PROPS = {
         note="after a failed in-place patch the document is required to be valid and releasable, not unchanged (the API makes no rollback promise); realloc always moves in the seam so stale pointers fault",
         assumptions=COMMON_ASSUMPTIONS,
     ),
+    "C20": dict(
+        level="fault_enumeration",
+        runs=[dict(harness="c20", variant="san", shards=16)],
+        deadline=dict(quick=240, thorough=1500),
+        rule="write: documents whose serialization has 2, 9, 12, 40, 4095, 4096, 4097 and 9000 bytes plus a small tree x 3 flag sets x {to_fd, to_file_ext}; read: the same texts plus a nested, "
+             "an invalid, a bare-number and an empty text x {from_fd, from_fd_ex(3), from_fd_ex(32), from_file}; every read()/write() is a choice point: for texts <= 12 bytes every "
+             "transfer size 1..n and two errno values at every call (all compositions), for larger ones sizes {all,1,2,n/2,n-1} and two errors with a bounded number of deviations; "
+             "open() failure, NULL object; non-trivial = distinct (operation, document, variant)",
+        bound=dict(quick="<= 2 deviations on large documents", thorough="<= 3 deviations on large documents"),
+        states_stat="cases", transitions_stat="schedules",
+        technique="exhaustive enumeration of per-call transfer sizes and injected errors (choice points at read/write/open) on the real file I/O helpers (ASan build)",
+        claim="for every explored schedule the bytes accepted by write() concatenate to exactly the serialization (or the call reports failure with a message), and reading yields the same "
+              "result as one parse call on the same bytes with the same depth limit; no descriptor or allocation is left behind",
+        note="write() returning 0 for a non-zero request is outside the alphabet (not produced by POSIX for the documented descriptor kinds)",
+        assumptions=COMMON_ASSUMPTIONS,
+    ),
 }
 
 NOT_APPLICABLE = {}
